@@ -450,7 +450,12 @@ func compareEmittedMode(c *ev.Ctx, tag string, pkgs []tvPackage, goRes map[strin
 		p := byName[parts[0]]
 		if o.St == "stuck" {
 			kind := "stuck"
-			if strings.HasPrefix(o.Why, "unknown identifier") || strings.HasPrefix(o.Why, "unknown builtin") {
+			if strings.HasPrefix(o.Why, "unknown identifier") && isProgramName(strings.TrimSpace(strings.TrimPrefix(o.Why, "unknown identifier"))) {
+				// an unqualified name that neither the package nor the GooseLang library defines: the emitted
+				// definition refers to something that does not exist
+				kind = "undefined-name"
+				st.Compared++
+			} else if strings.HasPrefix(o.Why, "unknown identifier") || strings.HasPrefix(o.Why, "unknown builtin") {
 				kind = "unknown-ident"
 				st.Inconclusive++
 			} else {
@@ -475,6 +480,19 @@ func compareEmittedMode(c *ev.Ctx, tag string, pkgs []tvPackage, goRes map[strin
 		}
 	}
 	return dis, st, true
+}
+
+// isProgramName: the identifier cannot be a GooseLang library name the model lacks (those are qualified, or one of
+// the few unqualified ones listed here), so it must come from the translated package itself.
+func isProgramName(n string) bool {
+	if n == "" || strings.Contains(n, ".") {
+		return false
+	}
+	switch n {
+	case "NewProph", "ResolveProph", "zero_array", "arrayT", "MapIter", "ForSlice", "Data.getField_f", "Linearize":
+		return false
+	}
+	return true
 }
 
 func keysList(m map[string]bool) []string {
@@ -546,6 +564,9 @@ func C01(c *ev.Ctx) {
 		for _, d := range dis {
 			all = append(all, d)
 			if d.Kind == "unknown-ident" || d.Kind == "no-outcome" {
+				if os.Getenv("VERIF_DEBUG") != "" {
+					fmt.Printf("debug: %s.%s %s: %s\n", d.Pkg, d.Entry, d.Kind, d.Detail)
+				}
 				continue
 			}
 			var src string
@@ -574,6 +595,9 @@ func C01(c *ev.Ctx) {
 	c.Set("evaluations", tot.Compared)
 	c.Set("distinct_nontrivial", tot.Compared)
 	c.Set("rule", "entry points of seeded generated packages whose Go execution returned normally and whose emitted definition was executed by TLC on GooseLang.tla; each is distinct (different seed/program) and non-trivial (6-15 statements mixing the supported constructs)")
+	if tot.Inconclusive*10 > tot.Compared+tot.Inconclusive {
+		c.Inconclusive("%d of %d entries could not be judged by the model (identifiers it does not define): the model lags behind the generator", tot.Inconclusive, tot.Compared+tot.Inconclusive)
+	}
 	if tot.Broken*5 > tot.Programs+tot.Broken && tot.Programs+tot.Broken > 0 {
 		c.Inconclusive("%d of %d generated packages did not compile: generator defect", tot.Broken, tot.Programs+tot.Broken)
 	}
